@@ -282,7 +282,7 @@ var (
 // scheduling point, or blocked outside the scheduler), or when it is older
 // than 20x that (a safety net).
 func watchdog() {
-	limit := time.Duration(envInt("VERIF_RUN_WATCHDOG_S", 45)) * time.Second
+	limit := time.Duration(envInt("VERIF_RUN_WATCHDOG_S", 120)) * time.Second
 	var seen *runInfo
 	var last int64
 	var lastAt time.Time
